@@ -56,9 +56,9 @@ func (v *VerifC03Frag) ClearRow(row uint64) (bool, error) { return v.f.clearRow(
 func (v *VerifC03Frag) ImportRoaring(data []byte, clear bool) error {
 	return v.f.importRoaring(context.Background(), data, clear)
 }
-func (v *VerifC03Frag) Snapshot() error                    { return v.f.Snapshot() }
-func (v *VerifC03Frag) Close() error                       { return v.f.Close() }
-func (v *VerifC03Frag) Reopen() error                      { return v.f.Open() }
+func (v *VerifC03Frag) Snapshot() error { return v.f.Snapshot() }
+func (v *VerifC03Frag) Close() error    { return v.f.Close() }
+func (v *VerifC03Frag) Reopen() error   { return v.f.Open() }
 
 // Quiesce waits until no snapshot of the fragment is queued or running.
 func (v *VerifC03Frag) Quiesce() { v.f.awaitSnapshot() }
